@@ -1251,6 +1251,9 @@ class XmlFile(SimpleCorr):
             xl, xst = extreme_stage(pid, d, "xml")
             mine += xl
             out.coverage["extremes"] = xst
+            ol = option_order_stage(pid)
+            mine += ol
+            out.coverage["option_order_probe"] = {"lines": len(ol)}
         dis = self.disagreements(blocks, impl, model)
         known = vlib.known_keys(pid)
         unlisted, seen_known, counts = {}, {}, {}
@@ -1329,6 +1332,15 @@ def _forest_nodes(lines):
     return head, nodes, tail
 
 
+def option_order_stage(pid):
+    """the option builders' setters commute (harness/src/migcustom.rs optorder: both call orders of every two-setter builder under
+    a custom reflection database); returns this property's oracle lines `optorder <pid> option-order ...`"""
+    rc, o, _ = vlib.run([vlib.harness_bin(), "optorder-run"], timeout=600)
+    if rc != 0 or "optorder done" not in o:
+        return ["optorder %s option-order-harness the option-order probe could not run: %s" % (pid, o[-300:].replace("\n", " "))]
+    return [l for l in o.split("\n") if l.startswith("optorder " + pid + " ")]
+
+
 def extreme_stage(pid, d, fmt):
     """implementation-side round trips at sizes the extracted model cannot afford (harness/src/extreme.rs): byte strings around
     2^16 / 2^20 in every string-like position, deep chains, wide fan-out, many classes; one child process per case.
@@ -1378,7 +1390,9 @@ class BinFile(SimpleCorr):
             return []
         lines, st = extreme_stage(pid, d, "bin")
         out.coverage["extremes"] = st
-        return lines
+        ol = option_order_stage(pid)
+        out.coverage["option_order_probe"] = {"lines": len(ol)}
+        return lines + ol
 
     def shrink_candidates(self, lines):
         head, nodes, tail = _forest_nodes(lines)
